@@ -4,18 +4,24 @@ import Driver.Abi
 import Driver.C19
 import Driver.C02
 import Driver.C11
+import Driver.C16
+import Driver.C18
 
 /-- global driver state: one slot per stateful model -/
 structure St where
   bridge : Driver.Bridge.DSt := {}
   c19 : Driver.C19.State := Driver.C19.init
   c02 : Driver.C02.State := Driver.C02.init
+  c16 : Driver.C16.State := Driver.C16.init
+  c18 : Driver.C18.DSt := Driver.C18.init
 
 def stepLine (st : St) (line : String) : St × String :=
   match (line.trimAscii.toString.splitOn " ").filter (· ≠ "") with
   | "C04" :: rest => (st, Driver.C04.step rest)
   | "C19" :: rest => let (s', o) := Driver.C19.step st.c19 rest; ({ st with c19 := s' }, o)
   | "C02" :: rest => let (s', o) := Driver.C02.step st.c02 rest; ({ st with c02 := s' }, o)
+  | "C18" :: rest => let (s', o) := Driver.C18.step st.c18 rest; ({ st with c18 := s' }, o)
+  | "C16" :: rest => let (s', o) := Driver.C16.step st.c16 rest; ({ st with c16 := s' }, o)
   | "C11" :: rest => (st, Driver.C11.step rest)
   | "ABI" :: rest => (st, Driver.Abi.step rest)
   | "BR" :: rest => let (b, o) := Driver.Bridge.step st.bridge rest; ({ st with bridge := b }, o)
